@@ -20,6 +20,8 @@ import ast
 import os
 import re
 
+import regex_ast
+
 try:
     import re._parser as sre_parse
     import re._constants as sre_c
@@ -620,6 +622,7 @@ def generate(repo_dir):
     out = []
     w = out.append
     w('import PyxModel.Oal.Lex')
+    w('import PyxModel.Regex')
     w('')
     w('/-! GENERATED by translator/gen_oallex.py from bridgepoint/oal.py, interpret.py, prebuild.py - do not edit.')
     w('    Lexer rule table in PLY matching order, keyword table, t_ignore, keyword recognition mode of t_ID,')
@@ -646,6 +649,18 @@ def generate(repo_dir):
                          ('some ' + lstr(r['lit'])) if r['lit'] is not None else 'none', lbool(r['can_nl']),
                          lbool(r['counts']), lbool(r['sets_line']), lbool(r['sets_pos']), lbool(r['returns'])))
     w(',\n'.join(lines))
+    w(']')
+    w('')
+    for r in rules:
+        if not re.fullmatch(r'[A-Za-z_][A-Za-z0-9_]*', r['name']):
+            raise SystemExit('gen_oallex: rule name %r is not an identifier' % r['name'])
+        w('/-- `%s` as parsed by Python\'s own regex parser from the SOURCE text -/' % lcomment(r['regex']))
+        w('def rx_%s : Pyx.Regex.Regex :=' % r['name'])
+        w('  %s' % regex_ast.lean_term(regex_ast.to_ast(r['regex'])))
+        w('')
+    w('/-- the regex of every rule (same order as `rules`) -/')
+    w('def rx : List Pyx.Regex.Regex := [')
+    w(',\n'.join('  rx_%s' % r['name'] for r in rules))
     w(']')
     w('')
     w('def cfg : LexCfg := { rules := rules, keywords := keywords, ignore := ignore, idUpper := idUpper }')
